@@ -58,6 +58,8 @@ type Fabric struct {
 	// StalledPairs: writes from the first to the second node ("B>S") block until
 	// their deadline or a reset; Heal does not release them.
 	StalledPairs map[string]bool
+	// StalledDials: dials from the first to the second node ("B>S") do not come back.
+	StalledDials map[string]bool
 }
 
 type pendingNotify struct {
@@ -300,7 +302,19 @@ func (h *SimHost) connect(ctx context.Context, p peer.ID) error {
 		return nil
 	}
 	outs := append([]string{"ok"}, f.ConnectFaults...)
+	stalledDial := f.StalledDials[h.name+">"+dname]
 	f.mu.Unlock()
+	if stalledDial {
+		// the peer cannot be reached and the dial does not come back (until heal, or the caller's context ends)
+		f.w.Probe("dial-stalled-for-good")
+		f.w.Effect("dial %s>%s stalls", h.name, dname)
+		select {
+		case <-ctx.Done():
+			return ctx.Err()
+		case <-f.stallHeal:
+		}
+		return errors.New("sim: dial failed")
+	}
 	o := f.w.Park("connect", "connect|"+h.name+">"+dname, outs...)
 	switch o {
 	case "abort":
